@@ -7,6 +7,7 @@ replace github.com/sdcio/data-server => /repo
 replace github.com/openconfig/goyang v1.6.0 => github.com/sdcio/goyang v1.6.0-2
 
 require (
+	github.com/beevik/etree v1.5.0
 	github.com/sdcio/cache v0.0.35
 	github.com/sdcio/data-server v0.0.0
 	github.com/sdcio/schema-server v0.0.30
@@ -19,7 +20,6 @@ require (
 require (
 	cloud.google.com/go/compute/metadata v0.5.2 // indirect
 	github.com/AlekSi/pointer v1.2.0 // indirect
-	github.com/beevik/etree v1.5.0 // indirect
 	github.com/beorn7/perks v1.0.1 // indirect
 	github.com/bufbuild/protocompile v0.14.1 // indirect
 	github.com/cespare/xxhash/v2 v2.3.0 // indirect
